@@ -709,10 +709,9 @@ func (s *Shard) validateSeriesAndFields(points []models.Point) ([]models.Point, 
 			continue
 		}
 
-		points[j] = points[i]
-		j++
-
 		// Create any fields that are missing.
+		var newFields []*FieldCreate
+		conflict := false
 		iter.Reset()
 		for iter.Next() {
 			fieldKey := iter.FieldKey()
@@ -722,16 +721,28 @@ func (s *Shard) validateSeriesAndFields(points []models.Point) ([]models.Point, 
 				continue
 			}
 
-			if mf.FieldBytes(fieldKey) != nil {
+			dataType := dataTypeFromModelsFieldType(iter.Type())
+			if f := mf.FieldBytes(fieldKey); f != nil {
+				// A concurrent write may have created the field since the validator
+				// looked at it: it must have this point's type, or a value of another
+				// type would be stored under it.
+				if dataType != influxql.Unknown && f.Type != dataType {
+					if reason == "" {
+						reason = fmt.Sprintf(
+							"%s: input field \"%s\" on measurement \"%s\" is type %s, already exists as type %s",
+							ErrFieldTypeConflict, fieldKey, name, dataType, f.Type)
+					}
+					conflict = true
+					break
+				}
 				continue
 			}
 
-			dataType := dataTypeFromModelsFieldType(iter.Type())
 			if dataType == influxql.Unknown {
 				continue
 			}
 
-			fieldsToCreate = append(fieldsToCreate, &FieldCreate{
+			newFields = append(newFields, &FieldCreate{
 				Measurement: name,
 				Field: &Field{
 					Name: string(fieldKey),
@@ -739,6 +750,15 @@ func (s *Shard) validateSeriesAndFields(points []models.Point) ([]models.Point, 
 				},
 			})
 		}
+		if conflict {
+			dropped++
+			atomic.AddInt64(&s.stats.WritePointsDropped, 1)
+			continue
+		}
+
+		points[j] = points[i]
+		j++
+		fieldsToCreate = append(fieldsToCreate, newFields...)
 	}
 
 	if dropped > 0 {
